@@ -445,6 +445,16 @@ class Interp:
         so, zo, odt = self.q(op.outputs[0])
         x = self.get(op.inputs[0])
         lo, hi = RANGE[odt]
+        if dt in ("int8", "uint8") and odt == dt and float(np.float32(so[0])) == 1.0 / 256 and zo[0] == lo:
+            # reference_ops::Softmax, 8-bit fixed-point kernel (gemmlowp), row by row
+            mult, ls, dmin = R.softmax_params(beta, float(np.float32(sx[0])))
+            rows = x.reshape(-1, x.shape[-1])
+            try:
+                out = np.array([R.softmax_row_8bit([int(v) for v in row], mult, ls, dmin, lo, hi) for row in rows], dtype=np.int64)
+            except OverflowError as e:
+                raise Unsupported(str(e))
+            self.softmax_kernel = "fixed-point"
+            return out.reshape(x.shape)
         xr = (x - x.max(axis=-1, keepdims=True)).astype(np.float64) * float(np.float32(sx[0])) * beta
         ex = np.exp(xr)
         y = ex / ex.sum(axis=-1, keepdims=True) / float(np.float32(so[0]))
